@@ -30,6 +30,9 @@ pub struct GenConfig {
     pub max_pixels: u64,
     /// avoid constructs that hit known decoder defects (see known_findings.json); C01/C05 explore them
     pub safe: bool,
+    /// SIMD-tail sweep: width uniform over every residue of the vector lane counts, at least 8
+    /// rows, always at least one transform (squeeze-heavy), 16-bit buffers likely
+    pub simd_sweep: bool,
 }
 
 impl GenConfig {
@@ -56,6 +59,7 @@ impl GenConfig {
             vardct: false,
             max_pixels: 96 * 96,
             safe: true,
+            simd_sweep: false,
         }
     }
 
@@ -229,6 +233,10 @@ pub fn random_program(rng: &mut Rng, cfg: &GenConfig) -> Program {
     // --- image level
     let mut width = pick_dim(rng, cfg.max_dim, cfg.multi_group);
     let mut height = pick_dim(rng, cfg.max_dim, cfg.multi_group);
+    if cfg.simd_sweep {
+        width = rng.range(9, cfg.max_dim as i64) as u32;
+        height = rng.range(8, 40.min(cfg.max_dim) as i64) as u32;
+    }
     while width as u64 * height as u64 > cfg.max_pixels {
         if width > height { width = (width / 2).max(1) } else { height = (height / 2).max(1) }
     }
@@ -459,12 +467,12 @@ pub fn random_frame(rng: &mut Rng, cfg: &GenConfig, prog: &Program, is_last: boo
         let base = prog.base_channels_dims(cw, ch, upsampling, &ec_upsampling);
         let nch = base.len() as u32;
         let n = match rng.below(6) {
-            0..=2 => 0,
+            0..=2 => cfg.simd_sweep as u32,
             3 | 4 => 1,
             _ => 2,
         };
         for _ in 0..n {
-            let t = match rng.below(5) {
+            let t = match if cfg.simd_sweep && rng.chance(1, 2) { 3 } else { rng.below(5) } {
                 0 | 1 if nch >= 3 => TransformSpec::Rct { begin_c: rng.below((nch - 2) as u64) as u32, rct_type: rng.below(42) as u32 },
                 2 => {
                     let num_c = if nch >= 3 && rng.chance(1, 2) { 3 } else { 1 };
